@@ -17,7 +17,7 @@ def run(cmd, **kw):
 def demo_cmd():
     if miri:
         return ["cargo", "+nightly", "miri", "test", "--offline", "--test", "demo%s" % k]
-    return ["cargo", "test", "--offline", "--test", "demo%s" % k] + (["--features", os.environ["SEED_FEATURES"]] if os.environ.get("SEED_FEATURES") else [])
+    return ["cargo", "test", "--offline", "--test", "demo%s" % k] + (["--features", os.environ["SEED_FEATURES"]] if os.environ.get("SEED_FEATURES") else []) + (["--no-default-features"] if os.environ.get("SEED_NO_DEFAULT") else [])
 
 
 res = dict(property=prop, variant=k, miri=miri, features=os.environ.get("SEED_FEATURES", "default"))
